@@ -31,7 +31,7 @@ RULE = ("histories of API actions {create options object, set an option (legal /
         "state can accumulate over thousands of actions. Every conversion result, normalised by first-occurrence renaming "
         "of __ol_ identifiers, is compared with the reference computed in fresh processes. Distinct by history; "
         "non-trivial iff the history contains a conversion preceded by at least one state-changing action.")
-ASSUMPTIONS = ["reference = the same call in a fresh process (two processes with different hash seeds must agree)",
+ASSUMPTIONS = ["reference = the same call in a fresh process: every reference cell is computed in a fork()ed child of a process that only imported oneliner; four such processes with different hash seeds must agree",
                "normalisation: every identifier matching __ol_\\w+ is renamed by order of first occurrence"]
 EXHAUSTIVE = {"quick": False, "thorough": False}
 FLOOR = {"quick": 5000, "thorough": 50000}
@@ -68,7 +68,7 @@ def normalise(text):
 
 
 REF_SCRIPT = r'''
-import sys, json, re
+import sys, json, re, os
 sys.path.insert(0, sys.argv[1])
 import oneliner
 from oneliner.config import Configs
@@ -82,14 +82,32 @@ import itertools
 cfgs = list(itertools.product(["ast.unparse", "oneliner"], ["list", "chain_call"], ["if_expr", "short_circuit"]))
 for i, src in enumerate(pool):
     for cfg in cfgs + [None]:
-        # one fresh options object per conversion, set in a rotating order
-        if cfg is None:
-            r = oneliner.convert_code_string(src)
-        else:
-            c = Configs()
-            c.if_style = cfg[2]; c.unparser = cfg[0]; c.expr_wrapper = cfg[1]
-            r = oneliner.convert_code_string(src, configs=c)
-        out["%d|%s" % (i, "none" if cfg is None else ",".join(cfg))] = norm(r)
+        # every cell is computed in a fork()ed child of a process that has only *imported* oneliner and never
+        # converted anything: no state of one reference conversion can reach another one
+        r, w = os.pipe()
+        pid = os.fork()
+        if pid == 0:
+            os.close(r)
+            try:
+                if cfg is None:
+                    t = oneliner.convert_code_string(src)
+                else:
+                    c = Configs()
+                    c.if_style = cfg[2]; c.unparser = cfg[0]; c.expr_wrapper = cfg[1]
+                    t = oneliner.convert_code_string(src, configs=c)
+                os.write(w, norm(t).encode("utf8"))
+            finally:
+                os._exit(0)
+        os.close(w)
+        chunks = []
+        while True:
+            b = os.read(r, 65536)
+            if not b:
+                break
+            chunks.append(b)
+        os.close(r)
+        os.waitpid(pid, 0)
+        out["%d|%s" % (i, "none" if cfg is None else ",".join(cfg))] = b"".join(chunks).decode("utf8")
 print(json.dumps(out))
 '''
 
